@@ -499,6 +499,12 @@ func (e *exec) resolveT(o Op, sl *slot) int64 {
 	switch o.TB {
 	case "abs":
 		return o.TO
+	case "edge":
+		// the first block boundary at or behind the current time
+		base = e.now - ((e.now%e.cfg.R)+e.cfg.R)%e.cfg.R
+		if base < e.now {
+			base += e.cfg.R
+		}
 	case "hmax":
 		base = e.hmax()
 	case "slast":
@@ -1053,6 +1059,11 @@ func Execute(t *testing.T, prop string, plan *Plan) (res *runner.Result) {
 	e.refs = make([]storage.SeriesRef, e.cfg.NSeries)
 	e.pendingCreator = make([]int, e.cfg.NSeries)
 	e.hist = make([]histgen.State, e.cfg.NSeries)
+	if e.cfg.Profile == "C15" || e.cfg.Profile == "C03" {
+		for i := range e.hist {
+			e.hist[i].PreferCustom = i%2 == 0 // custom-bucket histograms have WAL record types of their own
+		}
+	}
 	for i := range e.apps {
 		e.apps[i] = &slot{}
 	}
